@@ -317,6 +317,11 @@ func exploreCase(ctx *core.Ctx, c *Case, st *exploreState, repsID, repsOther int
 			runs++
 			if ref == nil {
 				ref = o
+				if o["accept"] == "reject" && c.Origin == "tlc" && !ctx.Thorough() {
+					// quick tier: a rejected bundle of the enumerated family exercises only the
+					// front end; the hand-built error bundles keep the full repetition count
+					reps = (reps + 2) / 3
+				}
 				continue
 			}
 			for _, comp := range Components {
